@@ -19,10 +19,14 @@ def oracle_factory(cfg_json, ops, bad_index):
     def oracle(trace, session):
         t = trace[bad_index]
         res = t["result"]
+        tag = t["op"][3] if len(t["op"]) > 3 else ""
         if not res.startswith("err"):
+            if tag in ("plain-on-ciphered", "bad-tag", "wrong-key", "wrong-ak", "short"):
+                # nothing authenticates this input (no protection at all / a tag that cannot verify): if it is taken, a forged
+                # APDU drives the connection and the genuine continuation is at its mercy
+                return f"C07 a forged APDU ({tag}) was accepted: {t['before']} -> {t['after']}"
             return None                      # accepted input: C07 says nothing
         cls = res.split()[1]
-        tag = t["op"][3] if len(t["op"]) > 3 else ""
         if cls in ("decode", "auth") or tag in ("replay", "old-counter"):
             if t["before"] != t["after"]:
                 return f"C07 refused ({cls}) but state changed: {t['before']} -> {t['after']}"
@@ -95,6 +99,9 @@ class C07(fw.Prop):
         out.append(("wrong-kind", p.resp("aare", (0, None)) + ["wrong-kind"]))
         out.append(("wrong-kind", p.resp("aare", (1, 5)) + ["wrong-kind"]))
         if p.ciphered:
+            # unciphered APDUs on a connection with keys: nothing authenticates them, whatever the state allows
+            for k in ["exceptionResp", "getRespNormal", "getRespBlock", "setResp", "actResp", "dataNotif", "confirmedServiceErr"]:
+                out.append(("plain-on-ciphered", ["recv", ["s", k], None, "plain-on-ciphered"]))
             cur = p.mic
             for ic, tag in ((cur + 500, "bad-tag"), (2 ** 32 - 1, "bad-tag"), (cur, "old-counter"), (max(cur - 1, 0), "old-counter"), (0, "old-counter")):
                 out.append((tag, ["recv", ["ggc", MT, str(sc), str(ic), f"junk:{ic % 97}"], None, tag]))
@@ -127,7 +134,11 @@ class C07(fw.Prop):
 
     def cases(self, rng, tier, deep):
         cfgs = configs()
-        for name in ("plain", "hls", "pre-ciphered"):
+        cfgs = dict(cfgs)
+        # a pre-established ciphered association that does not know the meter's title yet: nothing can be authenticated,
+        # and nothing a refused APDU carries may be remembered
+        cfgs["pre-ciphered-notitle"] = cl.Cfg(pre=True, state="READY", ek=EK, ak=AK, meter_title=None, cic=7, mic=3)
+        for name in ("plain", "hls", "pre-ciphered", "pre-ciphered-notitle"):
             cfg = cfgs[name]
             for st in STATES:
                 if Path(name, cfg).to_state(st) is None:
